@@ -4,7 +4,7 @@ ID="$1"; TIER="${2:-quick}"; shift; shift 2>/dev/null
 PID=$(echo "$ID" | cut -c1-3)
 cd /verif
 git -C /repo diff --quiet || { echo "/repo has local changes; refusing"; exit 2; }
-git -C /repo apply "seeded/$ID/patch.diff" || exit 2
+git -C /repo apply "/verif/seeded/$ID/patch.diff" || exit 2
 trap 'git -C /repo checkout -- .' EXIT INT TERM
 bin/check "$PID" --tier "$TIER" "$@"
 echo "seed $ID exit=$?"
